@@ -5,6 +5,7 @@ import (
 	"fmt"
 	"os"
 	"path/filepath"
+	"regexp"
 	"sort"
 	"strings"
 
@@ -436,7 +437,7 @@ func graphConfig(t *rapid.T, p *Profile) WorldConfig {
 		}
 	}
 	defs = append(defs, ResDef{Name: "t.m", Type: "model", Missing: true})
-	qm := map[string]string{"a=1": "a=1", "b=1&a=1": "a=1&b=1", "a=1&b=1": "a=1&b=1"}
+	qm := map[string]string{"a=1": "a=1", "b=1&a=1": "a=1&b=1", "a=1&b=1": "a=1&b=1", "c=1": "a=1&b=1"}
 	if rapid.IntRange(0, 1).Draw(t, "qcoll") == 0 {
 		defs = append(defs, ResDef{Name: "t.q", Type: "model", Model: map[string]Val{"x": Prim("1")}, QueryMap: qm})
 	} else {
@@ -501,7 +502,7 @@ func init() {
 	})
 	register(&SimProp{
 		ID: "C03",
-		Profiles: []*Profile{dataProfile("c03-customs", map[string]int{"trigburst": 6, "refburst": 4, "custom": 45, "mutate": 14, "reaccess": 4, "qevent": 2, "sysreset": 4}),
+		Profiles: []*Profile{dataProfile("c03-customs", map[string]int{"qburst": 5, "trigburst": 6, "refburst": 4, "custom": 45, "mutate": 14, "reaccess": 4, "qevent": 2, "sysreset": 4}),
 			dataProfile("c03-refstates", map[string]int{"refburst": 14, "custom": 20, "mutate": 12, "subscribe": 18, "answer": 30})},
 		Config:   graphConfig,
 		Monitors: func() []Monitor { return []Monitor{NewMonC03()} },
@@ -631,7 +632,10 @@ func triggerData(w *World, v Violation) string {
 			// by a loading parent, revocation in flight): in general histories the
 			// whole region is excused; in acyclic, event-free histories
 			// (PreciseRetention) only the exact condition of this finding is.
-			if (w.Cfg.PreciseRetention && retainedByInflight(c, target, d.T)) || (!w.Cfg.PreciseRetention && outstandingAcross(c, d.T)) {
+			// In either case the gateway can only be retaining the resource for a
+			// request if the resource is that request's own or can be reached from it
+			// through references the gateway has ever been told about.
+			if (w.Cfg.PreciseRetention && retainedByInflight(c, target, d.T)) || (!w.Cfg.PreciseRetention && outstandingAcross(c, d.T) && reachableFromOutstanding(w, c, target, d.T)) {
 				return "inflight-retention"
 			}
 			if outstandingAcross(c, d.T) && belowDroppedCycle(c, target, d.T) {
@@ -643,12 +647,82 @@ func triggerData(w *World, v Violation) string {
 		// events for a resource the client dropped while a load that references it
 		// was in progress (the gateway keeps it for the loading parent)
 		for _, d := range c.Ref.DropLog {
-			if d.RID == v.RID && d.T < v.T && outstandingAcross(c, d.T) {
+			if d.RID == v.RID && d.T < v.T && outstandingAcross(c, d.T) && reachableFromOutstanding(w, c, v.RID, d.T) {
 				return "unsend-stale-snapshot"
 			}
 		}
 	}
 	return ""
+}
+
+var ridInPayload = regexp.MustCompile(`"rid":"([^"]+)"`)
+
+// everReferenced returns, per resource name, the names of all resources that
+// any get answer, query answer or event for it has ever referenced.
+func everReferenced(w *World) map[string]map[string]bool {
+	g := map[string]map[string]bool{}
+	add := func(name string, payload []byte) {
+		for _, m := range ridInPayload.FindAllSubmatch(payload, -1) {
+			t, _ := splitRID(string(m[1]))
+			if g[name] == nil {
+				g[name] = map[string]bool{}
+			}
+			g[name][t] = true
+		}
+	}
+	for _, e := range w.Log() {
+		switch {
+		case e.Kind == "mq_complete" && strings.HasPrefix(e.Subject, "get."):
+			add(e.Subject[4:], e.Payload)
+		case e.Kind == "mq_complete" && strings.HasPrefix(e.Subject, "_EVQ."):
+			add(w.qevSubjects[e.Subject], e.Payload)
+		case e.Kind == "mq_ev" && strings.HasPrefix(e.Subject, "event."):
+			if i := strings.LastIndexByte(e.Subject, '.'); i > 6 {
+				add(e.Subject[6:i], e.Payload)
+			}
+		}
+	}
+	return g
+}
+
+// reachableFromOutstanding: the target is the resource of a request that was
+// outstanding across log time t on the connection, or reachable from it; a
+// call/auth/new that was unanswered at t may name any resource.
+func reachableFromOutstanding(w *World, c *Client, target string, t int) bool {
+	tname, _ := splitRID(strings.Replace(target, "{cid}", c.CID, -1))
+	g := everReferenced(w)
+	for _, id := range c.Ref.ReqOrder {
+		q := c.Ref.Reqs[id]
+		if q.SentT >= t || (q.Resp > 0 && q.RespT <= t) || q.Action == "unsubscribe" || q.Action == "version" {
+			continue
+		}
+		var root string
+		switch {
+		case q.Action == "subscribe" || q.Action == "get":
+			root = q.RID
+		case q.ResRID != "":
+			root = q.ResRID
+		default:
+			return true
+		}
+		rname, _ := splitRID(strings.Replace(root, "{cid}", c.CID, -1))
+		seen := map[string]bool{rname: true}
+		stack := []string{rname}
+		for len(stack) > 0 {
+			n := stack[len(stack)-1]
+			stack = stack[:len(stack)-1]
+			if n == tname {
+				return true
+			}
+			for m := range g[n] {
+				if !seen[m] {
+					seen[m] = true
+					stack = append(stack, m)
+				}
+			}
+		}
+	}
+	return false
 }
 
 // outstandingAcross reports whether some request of the connection was sent
@@ -1078,7 +1152,7 @@ func init() {
 		ID: "C13",
 		Profiles: []*Profile{
 			{Name: "c13-query", MinOps: 10, MaxOps: 60, MaxConns: 3, Versions: []string{"1.2.3", "1.2.3", "1.1.1"}, Protocol: true, Prologue: 50, RIDs: rids,
-				W: weightsWith(map[string]int{"badreq": 0, "burst": 0, "auth": 0, "call": 0, "new": 0, "mutate": 2, "custom": 1, "silent": 2, "sysreset": 4, "qmutate": 24, "qevent": 18, "aliasburst": 5,
+				W: weightsWith(map[string]int{"badreq": 0, "burst": 0, "auth": 0, "call": 0, "new": 0, "mutate": 2, "custom": 1, "silent": 2, "sysreset": 4, "qmutate": 24, "qevent": 18, "aliasburst": 5, "qburst": 5,
 					"delete": 0, "reaccess": 1, "token": 0, "httpget": 2, "httppost": 0, "subscribe": 22, "get": 4, "unsubscribe": 6, "close": 1, "connect": 3}),
 				AccessOut: map[string]int{"grant": 20, "deny": 1},
 				GetOut:    map[string]int{"ok": 16, "notfound": 1, "err": 1, "timeout": 1},
